@@ -23,35 +23,25 @@ structure FCont.WF (c : FCont) : Prop where
 /-- Creating (or cloning) a proof does not change what the container holds. -/
 theorem lock_total_const (c c' : FCont) (a : Int) (w : Who) (h : c.lock a w = .ok c') :
     c'.amount = c.amount ∧ c'.locked = a :: c.locked := by
-  unfold FCont.lock at h
-  split at h
-  · rename_i hgt
-    unfold FCont.takeRaw at h
-    split at h
-    · cases h
-    · simp only [Except.ok.injEq] at h
-      subst h
-      simp only [FCont.amount, maxL_cons]
-      have := maxL_nonneg c.locked
-      refine ⟨?_, rfl⟩
-      split <;> omega
-  · rename_i hle
-    simp only [Except.ok.injEq] at h
-    subst h
+  have hn := maxL_nonneg c.locked
+  rcases lock_cases c c' a w h with ⟨hgt, _, rfl⟩ | ⟨hle, rfl⟩
+  · refine ⟨?_, rfl⟩
     simp only [FCont.amount, maxL_cons]
-    refine ⟨?_, rfl⟩
+    split <;> omega
+  · refine ⟨?_, rfl⟩
+    simp only [FCont.amount, maxL_cons]
     split <;> omega
 
 /-- Dropping a proof does not change what the container holds. -/
 theorem unlock_total_const (c c' : FCont) (a : Int) (h : c.unlock a = .ok c') :
     c'.amount = c.amount ∧ c'.locked = c.locked.erase a := by
   unfold FCont.unlock at h
-  split at h
-  · simp only [Except.ok.injEq] at h
+  by_cases hm : a ∈ c.locked
+  · simp only [hm, if_true, Except.ok.injEq] at h
     subst h
     simp only [FCont.amount]
-    exact ⟨by omega, rfl⟩
-  · cases h
+    exact ⟨by omega, trivial⟩
+  · simp [hm] at h
 
 /-- A live proof can always be dropped, and only a live proof can (`expect` never fires for one). -/
 theorem unlock_ok_iff (c : FCont) (a : Int) : (∃ c', c.unlock a = .ok c') ↔ a ∈ c.locked := by
@@ -122,19 +112,17 @@ container — the amounts already locked by other proofs are reused, not added
 theorem lock_ok_iff (c : FCont) (a : Int) (w : Who) (hwf : c.WF) :
     (∃ c', c.lock a w = .ok c') ↔ a ≤ c.amount := by
   have hl := hwf.liquid
-  unfold FCont.lock FCont.takeRaw FCont.amount
   constructor
   · rintro ⟨c', h⟩
-    split at h
-    · split at h
-      · cases h
-      · omega
-    · omega
+    simp only [FCont.amount]
+    rcases lock_cases c c' a w h with ⟨hgt, hlt, _⟩ | ⟨hle, _⟩ <;> omega
   · intro hle
-    split
+    simp only [FCont.amount] at hle
+    unfold FCont.lock FCont.takeRaw
+    by_cases hgt : a > maxL c.locked
     · have : ¬ c.liquid < a - maxL c.locked := by omega
-      simp [this]
-    · exact ⟨_, rfl⟩
+      simp [hgt, this]
+    · simp [hgt]
 
 /-- … and the liquid part after the lock is the total minus the new maximum. -/
 theorem lock_liquid (c c' : FCont) (a : Int) (w : Who) (h : c.lock a w = .ok c') :
@@ -146,15 +134,12 @@ theorem lock_liquid (c c' : FCont) (a : Int) (w : Who) (h : c.lock a w = .ok c')
 
 theorem lock_wf (c c' : FCont) (a : Int) (w : Who) (hwf : c.WF) (ha : 0 ≤ a) (h : c.lock a w = .ok c') :
     c'.WF := by
-  have hl := lock_liquid c c' a w h
   have ht := lock_total_const c c' a w h
+  have hl := hwf.liquid
   refine ⟨?_, ?_⟩
-  · unfold FCont.lock FCont.takeRaw at h
-    split at h
-    · split at h
-      · cases h
-      · simp only [Except.ok.injEq] at h; subst h; simp only; omega
-    · simp only [Except.ok.injEq] at h; subst h; exact hwf.liquid
+  · rcases lock_cases c c' a w h with ⟨hgt, hlt, rfl⟩ | ⟨hle, rfl⟩
+    · simp only; omega
+    · exact hl
   · rw [ht.2]; intro x hx
     rcases List.mem_cons.mp hx with rfl | hx
     · exact ha
